@@ -30,6 +30,13 @@ type RenderContext struct {
 	sandboxed          bool       // Flag indicating if this context is sandboxed
 	lastLoadedTemplate *Template  // The template that created this context (for resolving relative paths)
 	templateName       string     // Name of the template this render call started from (base of ./ and ../ names)
+
+	// Block inheritance: for every block name the definitions along the extends
+	// chain, most derived first; the chain and the position in it of the
+	// definition being rendered (parent() renders the next one)
+	blockDefs    map[string][]*BlockNode
+	currentChain []*BlockNode
+	blockLevel   int
 }
 
 // contextMapPool is a pool for the maps used in RenderContext
@@ -115,6 +122,9 @@ func NewRenderContext(env *Environment, context map[string]interface{}, engine *
 	ctx.inParentCall = false
 	ctx.sandboxed = false
 	ctx.templateName = ""
+	ctx.blockDefs = nil
+	ctx.currentChain = nil
+	ctx.blockLevel = 0
 
 	// Copy the context values directly
 	if context != nil {
@@ -132,6 +142,8 @@ func (ctx *RenderContext) Release() {
 	ctx.env = nil
 	ctx.engine = nil
 	ctx.currentBlock = nil
+	ctx.blockDefs = nil
+	ctx.currentChain = nil
 
 	// Save the maps so we can return them to their respective pools
 	contextMap := ctx.context
@@ -334,6 +346,11 @@ func (ctx *RenderContext) Clone() *RenderContext {
 	// Inherit sandbox state
 	newCtx.sandboxed = ctx.sandboxed
 	newCtx.templateName = ctx.templateName
+
+	// An included template resolves its own blocks
+	newCtx.blockDefs = nil
+	newCtx.currentChain = nil
+	newCtx.blockLevel = 0
 
 	// Copy the lastLoadedTemplate reference (crucial for relative path resolution)
 	newCtx.lastLoadedTemplate = ctx.lastLoadedTemplate
